@@ -458,6 +458,22 @@ class Run(RunBase):
         gone = [i for i in ids if net.find_lanelet_by_id(i) is None]
         if raised and gone:
             self.probe("map-shrunk:list-removal-interrupted")
+        victim = op.get("then_remove")
+        if victim is not None and victim in self.contained:
+            # an obstacle is taken out while its assignment still names lanelets that have just left the map
+            ob = self.sc.obstacle_by_id(victim)
+            self.last = "shrink+remove-obstacle"
+            if self.assigned.get(victim):
+                self.probe("obstacle-removed-after-its-lanelet-left")
+            try:
+                self.sc.remove_obstacle(ob)
+            except Exception as e:  # noqa
+                raise Violation(f"C07/remove-raised[{self.contained[victim]}]/<-shrink",
+                                f"removing contained obstacle {victim} raised {type(e).__name__}: {e} after lanelets "
+                                f"{gone} had been removed from the map (assigned: {bool(self.assigned.get(victim))})")
+            self.contained.pop(victim)
+            self.assigned.pop(victim, None)
+            self.last = "shrink[list with a foreign lanelet]+assign"
         self._reassign_all()
         return {"raised": raised, "gone": gone}
 
@@ -566,6 +582,9 @@ def _shrinker(rng, run, cfg):
         n += 1
         op = {"op": "shrink", "ids": rng.sample(have, rng.randint(1, min(2, len(have) - 1))), "pos": rng.randrange(3),
               "n": n}
+        cands = sorted(i for i, k in run.contained.items() if k in ("static", "dynamic"))
+        if cands and rng.chance(0.5):
+            op["then_remove"] = rng.pick(cands)
         yield op if run.enabled(op) else None
 
 
@@ -626,7 +645,7 @@ class C07(Property):
                        "second-scenario-with-other-lanelet-ids",
                        "pre-assigned-obstacle-added", "footprint-exactly-tangent-to-a-lanelet",
                        "network-grown:single", "network-grown:list", "network-grown:list+refused",
-                       "map-shrunk:list-removal-interrupted"]
+                       "map-shrunk:list-removal-interrupted", "obstacle-removed-after-its-lanelet-left"]
     assumptions = [
         "geometric truth comes from crkit.geom with its don't-care band; the footprint at a time step is read from the "
         "parameters of occupancy_at_time(t).shape (whether that occupancy is the right placement is C04)",
